@@ -24,7 +24,7 @@ func init() {
 	fw.Register(&fw.Prop{
 		ID: "C02",
 		Rule: "case = (route list over a matcher alphabet {none, need-1/2/3 byte predicates, not, AND pair, OR pair, never} and handler alphabet " +
-			"{terminal sink, take0, take1, two nested subroutes}, stream over {a,b} of length<=4, composition of the stream into segments); " +
+			"{terminal sink, take0, take1, take0 passing on a wrapped connection that swaps a and b, two nested subroutes}, stream over {a,b} of length<=4, composition of the stream into segments); " +
 			"exhaustive for the stated number of routes, plus seeded random larger instances (<=6 routes, nesting<=3, streams<=48 bytes) at route level and through the App; " +
 			"oracle = trace rules R1-R6 with set-valued (evaluation-order-insensitive) matcher-set verdicts. non-trivial = at least one handler or fallback event; " +
 			"distinct = hash(config, stream, composition)",
@@ -92,6 +92,7 @@ type Route struct {
 type Handler struct {
 	Kind string   `json:"kind"` // sink, take, sub
 	N    int      `json:"n,omitempty"`
+	Flip bool     `json:"flip,omitempty"` // take: pass a wrapped connection on that swaps 'a' and 'b'
 	Sub  []*Route `json:"sub,omitempty"`
 }
 
@@ -215,7 +216,7 @@ func routesJSON(level string, routes []*Route) []any {
 			case "sink":
 				hs = append(hs, map[string]any{"handler": "verif_sink", "name": name, "bufsize": 3})
 			case "take":
-				hs = append(hs, map[string]any{"handler": "verif_take", "name": name, "n": h.N})
+				hs = append(hs, map[string]any{"handler": "verif_take", "name": name, "n": h.N, "flip": h.Flip})
 			case "sub":
 				sub := fmt.Sprintf("%s/%d.s", level, ri)
 				hs = append(hs, map[string]any{"handler": "verif_take", "name": name + "pre", "n": 0})
@@ -274,6 +275,7 @@ func handlerAlphabet() [][]Handler {
 		{{Kind: "sink"}},
 		{{Kind: "take", N: 0}},
 		{{Kind: "take", N: 1}},
+		{{Kind: "take", N: 0, Flip: true}},
 		{{Kind: "sub", Sub: subA}},
 		{{Kind: "sub", Sub: subB}},
 	}
@@ -558,6 +560,18 @@ func checkTrace(top []*Route, S []byte, rec *hmods.ConnRec, flavor string, serve
 			consumed += e.N
 			if e.S != "" {
 				stopped = true
+			}
+			if e.S2 == "flip" {
+				// from here on the chain works on a wrapped connection that swaps 'a' and 'b'
+				S = append([]byte(nil), S...)
+				for i := consumed; i < len(S); i++ {
+					switch S[i] {
+					case 'a':
+						S[i] = 'b'
+					case 'b':
+						S[i] = 'a'
+					}
+				}
 			}
 		case "exit":
 		case "read", "sink-end":
